@@ -177,5 +177,25 @@ mod __verif_c11cut {
         core::mem::forget(inv);
     }
 
+    // @harness tiers=quick,thorough timeout=900
+    // @encodes distributed::splits::enumerate_parquet (pass-2 block, verbatim), distributed::splits::target_split_bytes
+    // @bounds one row group of a small table on 8 nodes: rows 1..=5, bytes 0..=255, rest of the table 0..=255 bytes
+    // @oracle as cut_covers_every_row_once_small_table_3_nodes
+    #[kani::proof]
+    #[kani::unwind(7)]
+    fn cut_covers_every_row_once_five_rows_8_nodes_wider_bytes() {
+        one_group(8, 5, 255, 255);
+    }
+
+    // @harness tiers=thorough timeout=900
+    // @encodes distributed::splits::enumerate_parquet (pass-2 block, verbatim), distributed::splits::target_split_bytes
+    // @bounds one row group of a small table on 8 nodes: rows 1..=5, bytes 0..=4095, rest of the table 0..=4095 bytes
+    // @oracle as cut_covers_every_row_once_small_table_3_nodes
+    #[kani::proof]
+    #[kani::unwind(7)]
+    fn cut_covers_every_row_once_five_rows_8_nodes_4k_bytes() {
+        one_group(8, 5, 4095, 4095);
+    }
+
     // @playback
 }
